@@ -183,6 +183,25 @@ var nestGens = []nestGen{
 	{"format-deep", func(n int) string {
 		return "x = \"" + rep("{", n) + rep("}", n) + "\".format(1)\ny = \"" + rep("%", n) + "s\" % 1\n"
 	}, 3},
+	// closures over variables of the enclosing function that are still unassigned when the module's globals are frozen
+	{"closure-unassigned-untaken-branch", func(n int) string {
+		return "def outer(flag):\n  if flag:\n    v = 1\n  def inner(): return v\n  return inner\ng = outer(False)\nh = [outer(0), {\"k\": outer(None)}, struct(f=outer(\"\"))]\n"
+	}, 0},
+	{"closure-unassigned-zero-iteration-loop", func(n int) string {
+		return "def outer(xs):\n  for v in xs:\n    pass\n  def inner(): return v\n  return inner\ng = outer([])\nt = (outer(()), outer({}))\n"
+	}, 0},
+	{"closure-unassigned-early-return", func(n int) string {
+		return "def outer(early):\n  def inner(): return (late, other)\n  if early:\n    return inner\n  late = 1\n  other = [inner]\n  return inner\ng = outer(True)\nk = outer(False)\n"
+	}, 0},
+	{"closure-unassigned-in-default", func(n int) string {
+		return "def outer():\n  def inner(): return v\n  def with_default(d = inner, e = [inner]): return d\n  if False:\n    v = 0\n  return with_default\ng = outer()\nlam = (lambda: (lambda: g))()\n"
+	}, 0},
+	{"closure-unassigned-comprehension-and-nested", func(n int) string {
+		return "def outer():\n  def mid():\n    def inner(): return (a, b)\n    return inner\n  fs = [mid() for _ in range(2)]\n  if not fs:\n    a = 1\n    b = 2\n  return fs\ng = outer()\ndef call():\n  return g[0]()\n"
+	}, 0},
+	{"closure-unassigned-called", func(n int) string {
+		return "def outer():\n  def inner(): return v\n  if False:\n    v = 0\n  return inner\ng = outer()\nx = str(g) + repr([g]) + str(g == g) + str({g: 1})\ny = g()\n"
+	}, 0},
 	// last: the two programs that build a cyclic value (a crash here restarts the worker)
 	{"closure-self-freeze", func(n int) string { return "def outer():\n  def f(): return f\n  return f\ng = outer()\n" }, 0},
 	{"struct-in-own-list-print", func(n int) string { return "l = []\ns = struct(x=l)\nl.append(s)\nprint(l)\n" }, 0},
@@ -367,6 +386,7 @@ func (p *pgen) stmt(ind string, d int, inFunc, inLoop bool) {
 		}
 	default:
 		w(hx.Pick(r, []string{"load(\"mod\", \"sym\")", "fail(" + p.expr(1) + ")",
+			"def mkc(flag, xs):\n" + ind + "  if flag:\n" + ind + "    cv = " + p.expr(1) + "\n" + ind + "  for lv in xs: pass\n" + ind + "  def inner(d = " + p.v() + "): return (cv, lv)\n" + ind + "  return inner\n" + ind + "cl" + fmt.Sprint(r.Intn(4)) + " = [mkc(" + p.expr(1) + ", []), mkc(0, " + p.expr(1) + " if type(" + p.expr(0) + ") == \"list\" else [])]",
 			"(v0) += 1", "((v0)) = " + p.expr(1), "[pa, [pb, pc]] = [1, [2, 3]]", "(pa, (pb, pc)) = (1, (2, 3))", "pl = [1, 2]\n" + ind + "(pl)[0] += 1\n" + ind + "((pl[1])) -= 1",
 			"pc2 = [x for (x) in [1, 2] for ((y), [z]) in [(x, [x])] if (x)]", "for (pa), [pb] in [(1, [2])]: pass",
 			"pf = lambda *a, **k: (a, k)\n" + ind + "pr = pf(*[1, 2], **{\"k\": 3})", "ps = \"%(a)s-%(b)r\" % {\"a\": " + p.expr(1) + ", \"b\": 2}",
@@ -512,6 +532,7 @@ func nestCases(quick bool) []nestCase {
 }
 
 type srcMode struct {
+	trunc  []string
 	nc     []nestCase
 	o      *opts
 	nNest  int64
@@ -527,7 +548,16 @@ type srcMode struct {
 func newSrcMode(o *opts) *srcMode {
 	m := &srcMode{o: o, nc: nestCases(o.tier != "thorough")}
 	m.nNest = int64(len(m.nc))
-	m.nRand = 500
+	seenT := map[string]bool{}
+	for _, p := range truncPrograms {
+		for i := 0; i <= len(p); i++ {
+			if !seenT[p[:i]] {
+				seenT[p[:i]] = true
+				m.trunc = append(m.trunc, p[:i])
+			}
+		}
+	}
+	m.nRand = 500 + 900 // incl. the truncations of truncPrograms (the first indices of the block)
 	if o.tier == "thorough" {
 		m.allOpt = true
 		m.nRand = 12000
@@ -595,6 +625,10 @@ func (m *srcMode) decode(i int64) srcCase {
 		return srcCase{Cat: "nest:" + nestGens[gi].name, Recipe: fmt.Sprintf("generator %s, n=%d, %d bytes", nestGens[gi].name, n, len(s)), Opts: op, Src: s}
 	}
 	j := i - m.nNest
+	if j < int64(len(m.trunc)) {
+		t := m.trunc[j]
+		return srcCase{Cat: "trunc", Recipe: fmt.Sprintf("a valid program truncated after %d bytes", len(t)), Opts: int((j*29 + 1) % 64), Src: t}
+	}
 	r := hx.NewRand(m.o.seed*104729 + uint64(j)).Split()
 	op := r.Intn(64)
 	switch j % 4 {
